@@ -40,7 +40,7 @@ CHECKS = {
     "C05": dict(
         engine="poolsim",
         technique=TECH + "operation sequences on long-lived strategy/model/array objects with a frame monitor (arrays, get_params by value, model fingerprint, clone, pickle) after every call",
-        text="One strategy object, one set of model objects and the caller's arrays live through a seeded sequence of queries: with and without labelling in between, with fit_* on and off (caller-fitted model), with sample_weight / utility_weight / index and feature-row candidates where supported, on a second data set of other size and scale, and with every lazily resolved default left unset. After every call (also a call that raised) the monitor compares all arrays byte-wise, get_params(deep=True) by value with the construction-time snapshot, a structural fingerprint of the model argument, and re-checks sklearn.clone and pickle.",
+        text="One strategy object, one set of model objects and the caller's arrays live through a seeded sequence of queries: with and without labelling in between, with fit_* on and off (caller-fitted model), with sample_weight / utility_weight / index and feature-row candidates where supported, on a second data set of other size and scale, and with every lazily resolved default left unset. After every call (also a call that raised) the monitor compares all arrays byte-wise, get_params(deep=True) by value with the construction-time snapshot, a structural fingerprint of the model argument, and re-checks sklearn.clone and pickle; at the end of the history the used strategy, its clone and its pickle round trip must answer one more query identically (\"a clone behaves like the original\").",
         note="The position of a model's own tie-break generator is excluded from the fingerprint (predict is specified to draw from it). Exceptions are outside the property and only counted.",
         design="4/C05",
     ),
@@ -54,7 +54,7 @@ CHECKS = {
     "C13": dict(
         engine="lifesim",
         technique=TECH + "call histories (fit / partial_fit / predict / query / update) on one long-lived object with injected wrapped-estimator failures; comparison with a fresh twin built from the original constructor spec, get_params / caller-dict monitor, deque reference model for the sliding window",
-        text="One estimator object lives through a seeded history of fit / partial_fit / predict* calls over data sets of different size, scale, dimensionality, label pattern and weights, with symbolic defaults left symbolic, caller-owned dicts as parameters and scheduler-injected fit failures of the wrapped scikit-learn estimator. After every fit-type call it must predict like a fresh object (built from a deep copy of the original constructor spec) that received only the fit-type calls since the last fit; get_params(deep=True) and caller-owned dicts are compared by value after every public call; SlidingWindowClassifier must predict like its base estimator fitted on a deque(maxlen=window_size) of what it was given. Stream strategies and budget managers take part through query/update histories with the same parameter monitor.",
+        text="One estimator object lives through a seeded history of fit / partial_fit / predict* calls over data sets of different size, scale, dimensionality, label pattern and weights, with symbolic defaults left symbolic, caller-owned dicts as parameters and scheduler-injected fit failures of the wrapped scikit-learn estimator. After every fit-type call it must predict like a fresh object (built from a deep copy of the original constructor spec) that received only the fit-type calls since the last fit, and like sklearn.clone(used object) fitted on the same data; get_params(deep=True) and caller-owned dicts are compared by value after every public call; SlidingWindowClassifier must predict like its base estimator fitted on a deque(maxlen=window_size) of what it was given. Stream strategies and budget managers take part through query/update histories with the same parameter monitor.",
         note="Integer seeds only (the position of a RandomState passed as parameter is not judged). Weighted and unweighted calls are not mixed on a sliding window (unspecified). For partial_fit only leakage from before the last fit and from non-fit calls is judged.",
         design="4/C13",
     ),
